@@ -43,7 +43,8 @@ pub enum HttpMut {
     Drop(u32),
     /// The n-th field given twice.
     Dup(u32),
-    /// The n-th field replaced by a value of another JSON type (kind: null, bool, number, string, array, object).
+    /// The n-th field replaced by a value of another JSON type (kind: null, bool, number, string, array, object, or one
+    /// of six long strings, some of multi-byte characters).
     Retype(u32, u32),
     /// Locator / user id made `delta` bytes longer or shorter (0 = emptied).
     Resize(i32),
@@ -95,7 +96,7 @@ impl HttpMut {
             match r.below(17) {
                 0 => HttpMut::Drop(r.below(8) as u32),
                 1 => HttpMut::Dup(r.below(8) as u32),
-                2 => HttpMut::Retype(r.below(8) as u32, r.below(6) as u32),
+                2 => HttpMut::Retype(r.below(8) as u32, r.below(12) as u32),
                 3 => HttpMut::Resize(*r.pick(&[-16i32, -15, -1, 1, 0, 0, 17, 100])),
                 4 => HttpMut::OddHex(r.below(4) as u32),
                 5 => HttpMut::NonHex(r.below(4) as u32),
@@ -109,7 +110,7 @@ impl HttpMut {
                 13 => HttpMut::Truncated(r.below(4096) as u32),
                 14 => HttpMut::NumRange(r.below(4) as u32),
                 15 => HttpMut::TopLevel(r.below(5) as u32),
-                _ => HttpMut::Retype(r.below(8) as u32, r.below(6) as u32),
+                _ => HttpMut::Retype(r.below(8) as u32, r.below(12) as u32),
             }
         }
     }
@@ -500,7 +501,7 @@ pub fn build(ep: Endpoint, base: &Value, m: &HttpMut) -> Built {
             } else {
                 let p = &fields[*n as usize % fields.len()];
                 if let Some(x) = get_mut(&mut v, p) {
-                    let mut k = *kind % 6;
+                    let mut k = *kind % 12;
                     loop {
                         let nv = match k {
                             0 => Value::Null,
@@ -508,7 +509,12 @@ pub fn build(ep: Endpoint, base: &Value, m: &HttpMut) -> Built {
                             2 => json!(12),
                             3 => json!("12"),
                             4 => json!([]),
-                            _ => json!({}),
+                            5 => json!({}),
+                            // long strings (the parser's complaint quotes them): 2-byte characters after 0..3 ASCII ones,
+                            // 3-byte ones, plain ASCII
+                            6..=9 => json!(format!("{}{}", &"abc"[..(k as usize - 6)], "\u{e9}".repeat(200))),
+                            10 => json!(format!("x{}", "\u{20ac}".repeat(150))),
+                            _ => json!("z".repeat(400)),
                         };
                         // same JSON type as the original is no retyping; a string where a hex string was is NonHex's job
                         let same = std::mem::discriminant(&nv) == std::mem::discriminant(x);
@@ -516,7 +522,7 @@ pub fn build(ep: Endpoint, base: &Value, m: &HttpMut) -> Built {
                             *x = nv;
                             break;
                         }
-                        k = (k + 1) % 6;
+                        k = if k >= 6 { 0 } else { (k + 1) % 6 };
                     }
                 }
             }
